@@ -265,7 +265,7 @@ func run(s *kernel.Sim, c *scen.Case) {
 			w.dialNo = d
 			// rogues aim at this dial's listener as soon as a broker has learnt its address
 			for r := 0; r < nrogues; r++ {
-				kind := kernel.Pick(t, "rogue", "wrongid", "emptyid", "garbage", "close", "silent", "stale")
+				kind := kernel.Pick(t, "rogue", "wrongid", "emptyid", "garbage", "close", "silent", "stale", "prefix", "extended", "upper")
 				d, r := d, r
 				s.Go(fmt.Sprintf("rogue%d.%d", d, r), func() {
 					var rq *request
@@ -286,6 +286,14 @@ func run(s *kernel.Sim, c *scen.Case) {
 					switch kind {
 					case "emptyid":
 						id = ""
+					case "prefix": // near misses of the right id: the hello must carry exactly it
+						id = rq.connect[:len(rq.connect)/2]
+					case "extended":
+						id = rq.connect + "0"
+					case "upper":
+						if id = strings.ToUpper(rq.connect); id == rq.connect {
+							id = rq.connect + " "
+						}
 					case "garbage", "close", "silent":
 						k = kind
 					case "stale":
